@@ -30,6 +30,9 @@ type BlockCache struct {
 	round         int64
 	hits          int64
 	miss          int64
+	// committed is set once this block's values are merged into the state cache: from then
+	// on the block's own view starts at its own hash, not at the previous block
+	committed bool
 }
 
 type Block struct {
@@ -87,6 +90,11 @@ func (pcc *BlockCache) Get(key string) (Value, bool) {
 		// logging.Logger.Debug("block cache get - deleted", zap.String("key", key))
 		logging.Logger.Debug("block state cache - deleted", zap.String("block", pcc.blockHash))
 		return nil, false
+	}
+
+	if pcc.committed {
+		// the values this block wrote are in the state cache under its own hash now
+		return pcc.main.Get(key, pcc.blockHash)
 	}
 
 	return pcc.main.Get(key, pcc.prevBlockHash)
